@@ -62,7 +62,20 @@ def showOut (obs : List Obs) (s : St) : String :=
 
 def dedup (l : List String) : List String := l.eraseDups
 
+/-- `eng=sample long=<n> trials=<t>|` (see harness): with at most 10 lease entries the sample is exact
+(`ttl_removed_after_cleanup`); above, some iteration order hides the due key (`sampled_cleanup_can_miss`)
+and the harness tries `t` fresh instances. -/
+def sampleCase (line : String) : Option Nat :=
+  match line.splitOn "|" with
+  | [hd, _] =>
+    let fs := fields hd
+    if lookup fs "eng" == some "sample" then natField fs "long" else none
+  | _ => none
+
 def modelLine (line : String) : String :=
+  match sampleCase line with
+  | some n => if n + 1 ≤ 10 then "nomiss\tsample-exact" else "miss\tsample-gt10-real"
+  | none =>
   match parseCase line with
   | none => "bad-case\t-"
   | some c =>
@@ -121,6 +134,10 @@ def monitorC23 (c : Case) (out : String) : String :=
 def monitorLine (prop : String) (line : String) : String :=
   match line.splitOn "\t" with
   | [case, out] =>
+    if (sampleCase case).isSome then
+      (if prop != "C23" then "skip" else if out == "nomiss" then "ok"
+       else if out == "miss" then "bad expired-key-survives-sampled-cleanup" else "bad impl-output-unparseable")
+    else
     match parseCase case with
     | none => "bad-case"
     | some c => if prop == "C23" then monitorC23 c out else "skip"
